@@ -460,5 +460,251 @@ def variant_payloads(s):
         i = k
 
 
+# ------------------------------------------------------------------ (2) typed map keys
+KEY_TYPES = ["u8", "u16", "u32", "u64", "i8", "i16", "i32", "i64", "bool", "date", "dh", "str", "any", "ign", "f64", "enum", "opt(u16)"]
+ENUM_KEYS = [b"a", b"bb", b"north", b"x_1"]
+
+
+def int_range(t):
+    bits = int(t[1:])
+    return (0, 2 ** bits - 1) if t[0] == "u" else (-2 ** (bits - 1) + (1 if bits == 64 else 0), 2 ** (bits - 1) - 1)
+
+
+def gen_key_of(rng, t, bad):
+    """-> (raw bytes, quoted?, expected printed key or None = the key visitor refuses)"""
+    base = t[4:-1] if t.startswith("opt(") else t
+    wrap = (lambda x: "(some %s)" % x) if t.startswith("opt(") else (lambda x: x)
+    q = rng.random() < 0.1
+    if base[0] in "ui" and base[1:].isdigit():
+        lo, hi = int_range(base)
+        if bad:
+            n = rng.choice([hi + 1, lo - 1, hi + 1000])
+            if base == "u64" and n > hi:
+                n = hi + rng.choice([1, 7])
+            if n < -2 ** 63 or (base[0] == "i" and n > 2 ** 63 - 1 and False):
+                n = hi + 1
+            return str(n).encode(), q, None
+        n = rng.choice([lo, hi, 0, 1, rng.randrange(lo, hi + 1), rng.randrange(max(lo, -300), min(hi, 300) + 1)])
+        return str(n).encode(), q, wrap("(%s %d)" % (base[0], n))
+    if base == "bool":
+        if bad:
+            return rng.choice([b"maybe", b"1", b"true"]), q, None
+        b = rng.random() < 0.5
+        return (b"yes" if b else b"no"), q, "(bool %d)" % b
+    if base in ("date", "dh"):
+        y, m, d, h = rng.choice([1, 1444, 1936, 2024, rng.randrange(1, 9999)]), rng.randrange(1, 13), rng.randrange(1, 29), rng.randrange(1, 25)
+        if bad:
+            raw = rng.choice(["%d.13.%d" % (y, d), "%d.%d.32" % (y, m), "%d.%d" % (y, m), "x%d.%d.%d" % (y, m, d)])
+            return raw.encode(), q, None
+        if base == "date":
+            return ("%d.%d.%d" % (y, m, d)).encode(), q, "(date %d %d %d 0)" % (y, m, d)
+        return ("%d.%d.%d.%d" % (y, m, d, h)).encode(), q, "(date %d %d %d %d)" % (y, m, d, h)
+    if base == "f64":
+        n = rng.randrange(-64, 256)
+        fr = rng.choice(["", ".5", ".25", ".125", ".000"])
+        import struct
+        val = float(n) + (float("0" + fr) if fr else 0.0) * (1 if n >= 0 else -1)
+        if n < 0 and fr:
+            val = float(n) - float("0" + fr)
+        raw = ("%d%s" % (n, fr)).encode()
+        if raw.startswith(b"-0") and val == 0.0:
+            raw, val = b"0" + fr.encode(), float("0" + fr) if fr else 0.0
+        return raw, q, "(f64 %016x)" % struct.unpack("<Q", struct.pack("<d", val))[0]
+    if base == "enum":
+        if bad:
+            return b"zzz", q, None
+        k = rng.choice(ENUM_KEYS)
+        return k, q, "(enum %s)" % hx(k)
+    # str / any / ign: any word
+    w = rng.choice([b"a", b"core", b"x_1", b"1444.11.11", b"42", b"yes", b"tag:ENG", b"k" * 17])
+    if base == "ign":
+        return w, q, "(ign)"
+    return w, q, "(str %s)" % hx(w)
+
+
+def gen_kmap_case(rng):
+    t = rng.choice(KEY_TYPES)
+    vt = rng.choice(["u32", "str", "seq(u8)", "ign", "struct(%s:opt(u8))" % hx("a")])
+    n = rng.randrange(0, 6)
+    badpos = rng.randrange(n) if n and rng.random() < 0.15 else -1
+    doc, exp = [], []
+    ok = True
+    for i in range(n):
+        raw, q, ek = gen_key_of(rng, t, i == badpos)
+        if vt == "u32":
+            x = rng.randrange(0, 2 ** 32)
+            val, ev = ("s", "U", str(x).encode()), "(u %d)" % x
+        elif vt == "str":
+            w = rng.choice([b"foo", b"bar_baz", b"1", b"yes"])
+            val, ev = ("s", "Q" if rng.random() < 0.3 else "U", w), "(str %s)" % hx(w)
+        elif vt == "seq(u8)":
+            xs = [rng.randrange(0, 256) for _ in range(rng.randrange(1, 4))]
+            val, ev = ("a", [("s", "U", str(x).encode()) for x in xs]), "(seq%s)" % "".join(" (u %d)" % x for x in xs)
+        elif vt == "ign":
+            val, ev = X.gen_value(rng, 1), "(ign)"
+            if val[0] == "h" or val[0] == "ak" or (val[0] == "o" and val[2]):
+                val = ("s", "U", b"w")
+        else:
+            if rng.random() < 0.5:
+                x = rng.randrange(0, 256)
+                val, ev = ("o", [("f", ("s", "U", b"a"), "=", ("s", "U", str(x).encode()))], []), "(struct (61 (some (u %d))))" % x
+            else:
+                val, ev = ("o", [("f", ("s", "U", b"zz"), "=", ("s", "U", b"1"))], []), "(struct (61 (none)))"
+        op = "=" if rng.random() < 0.9 else rng.choice(["<", ">", ">=", "<="])
+        doc.append(("f", ("s", "Q" if q else "U", raw), op, val))
+        if ek is None:
+            ok = False
+        if ok:
+            exp.append("(%s %s)" % (ek, ev))
+    ksh = "enum(%s)" % ",".join(hx(k) for k in ENUM_KEYS) if t == "enum" else ("opt(u16)" if t == "opt(u16)" else t)
+    return doc, "kmap(%s,%s)" % (ksh, vt), t, ("(amap%s)" % "".join(" " + e for e in exp)) if ok else "ERR:de"
+
+
+def run_keys(ctx):
+    rng = ctx.rng
+    cases, meta, groups = [], [], []
+    for _ in range(ctx.scale(1200, 10000)):
+        doc, shs, t, exp = gen_kmap_case(rng)
+        enc = rng.choice(["w1252", "utf8"])
+        txt, _ = TD.render_with_gaps(doc, rng, style=rng.choice(TD.STYLES))
+        paths = ["slice", "tape", "objreader", "etape"] + reader_paths(rng, doc, txt)
+        groups.append((shs, enc, txt, paths))
+        ctx.count("keys_docs")
+        ctx.count("keys_type_" + t)
+        ctx.count("keys_expect_" + ("err" if exp.startswith("ERR") else "value"))
+        for p in paths:
+            meta.append((exp, t, p, len(doc)))
+            cases.append("\t".join(["de.text", p, enc, shs, hx(txt)]))
+    impl, _ = ctx.correspond("typed_keys", cases, nontrivial=lambda c, i: i.startswith("(amap ("), model=False)
+    base = len(impl) - len(cases)
+    for k, (exp, t, p, n) in enumerate(meta):
+        o = impl[base + k]
+        pk = p.split(":")[0]
+        if o == exp:
+            continue
+        if t == "enum" and n > 0 and exp.startswith("(") and pk in ("slice", "tape", "objreader", "etape") and o == "ERR:de":
+            ctx.count("known_R-tape-enum-key")
+            if ctx.dist["known_R-tape-enum-key"] <= 2:
+                ctx.fail("R-tape-enum-key", "%s path refuses a map keyed by an enum (reader path: %s)" % (p, exp[:100]), [cases[k]], [o], exp)
+            continue
+        ctx.fail("key-" + pk, "%s path returns %s for a map with %s keys, the document says %s" % (p, o[:200], t, exp[:200]), [cases[k]], [o], exp)
+    # the extracted kloop / skloop against the implementation
+    texts = sorted(set(hx(g[2]) for g in groups))
+    tape, toks = phase1(ctx, "keys_model", texts)
+    mcases = []
+    for (shs, enc, txt, paths) in groups:
+        h = hx(txt)
+        for p in paths:
+            if p.startswith("reader:") or p.startswith("freader:"):
+                aux = toks[h]
+            elif h in tape:
+                aux = tape[h]
+            else:
+                continue
+            mcases.append("\t".join(["de.model.kmap", p, enc, shs, h, aux]))
+    ctx.correspond("keys_model", mcases, nontrivial=lambda c, i: i.startswith("(amap ("))
+
+
+# ------------------------------------------------------------------ (3) size hints, from_encoded_tape
+def gen_hint_case(rng):
+    """-> (doc, shape, expected on the tape paths, expected on the reader paths or None)"""
+    def word():
+        return ("s", "U", rng.choice([b"a", b"foo", b"1", b"yes", b"1444.11.11", b"x" * 16]))
+    r = rng.random()
+    pre = [("f", ("s", "U", rng.choice([b"a", b"b", b"pre"])), "=", word()) for _ in range(rng.randrange(0, 3))]
+    post = [("f", ("s", "U", rng.choice([b"c", b"d", b"post"])), "=", word()) for _ in range(rng.randrange(0, 3))]
+    if r < 0.45:
+        n = rng.randrange(0, 7)
+        el = rng.choice(["ign", "ign", "u8", "str"])
+        items, vals = [], []
+        for i in range(n):
+            if el == "u8":
+                x = rng.randrange(0, 256); items.append(("s", "U", str(x).encode())); vals.append("(u %d)" % x)
+            elif el == "str":
+                w = word(); items.append(w); vals.append("(str %s)" % hx(w[2]))
+            else:
+                if rng.random() < 0.4 and not (i == 0):
+                    sub = rng.choice([("a", [word() for _ in range(rng.randrange(0, 3))]),
+                                      ("o", [("f", ("s", "U", b"k"), rng.choice(["=", "<"]), word())], [])])
+                    items.append(sub)
+                else:
+                    items.append(word())
+                vals.append("(ign)")
+        v = ("a", items)
+        hints = list(range(n, -1, -1))
+        val = "(seq%s)" % "".join(" " + x for x in vals)
+        sh = "struct(76:hseq(%s))" % el
+        tape = "(struct (76 (hint %s %s)))" % (",".join(map(str, hints)), val)
+        rd = "(struct (76 (hint %s %s)))" % (",".join("-" for _ in hints), val)
+        return pre + [("f", ("s", "U", b"v"), "=", v)] + post, sh, tape, rd
+    # a map
+    m = rng.randrange(0, 6)
+    fs, ents = [], []
+    for i in range(m):
+        k = rng.choice([b"a", b"b", b"core", b"1", b"x_1"])
+        r2 = rng.random()
+        if r2 < 0.6:
+            val = word()
+        elif r2 < 0.8:
+            val = ("a", [word() for _ in range(rng.randrange(0, 3))])
+        elif r2 < 0.9:
+            val = ("o", [("f", ("s", "U", b"k"), "=", word())], [])
+        else:
+            val = ("h", rng.choice([b"rgb", b"hsv"]), ("a", [word() for _ in range(rng.randrange(1, 3))]))
+        op = "=" if rng.random() < 0.85 else rng.choice(["<", ">", ">=", "<=", "=="])
+        if i == 0 and op not in ("=", "<", ">"):
+            op = "="
+        fs.append(("f", ("s", "U", k), op, val))
+        ents.append("(%s (ign))" % hx(k))
+    tail = [word() for _ in range(rng.randrange(1, 3))] if m and rng.random() < 0.2 else []
+    hints = list(range(m, -1, -1)) + ([0] if tail else [])
+    if tail:
+        ents.append("(%s (ign))" % hx("remainder"))
+    val = "(map%s)" % "".join(" " + x for x in ents)
+    if rng.random() < 0.25 and not tail:
+        # the root map
+        return fs, "hmap(ign)", "(hint %s %s)" % (",".join(map(str, hints)), val), "(hint %s %s)" % (",".join("-" for _ in hints), val)
+    v = ("o", fs, tail) if m else ("a", [])
+    tape = "(struct (76 (hint %s %s)))" % (",".join(map(str, hints)), val)
+    rd = None if tail else "(struct (76 (hint %s %s)))" % (",".join("-" for _ in hints), val)
+    return pre + [("f", ("s", "U", b"v"), "=", v)] + post, "struct(76:hmap(ign))", tape, rd
+
+
+def run_hints(ctx):
+    rng = ctx.rng
+    cases, meta, groups = [], [], []
+    for _ in range(ctx.scale(1000, 8000)):
+        doc, shs, et, er = gen_hint_case(rng)
+        enc = rng.choice(["w1252", "utf8"])
+        txt, _ = TD.render_with_gaps(doc, rng, style=rng.choice(TD.STYLES))
+        paths = ["slice", "tape", "objreader", "etape"] + reader_paths(rng, doc, txt)[:1]
+        groups.append((shs, enc, txt))
+        ctx.count("hints_docs")
+        ctx.count("hints_" + ("root" if shs.startswith("hmap") else "seq" if "hseq" in shs else "map"))
+        for p in paths:
+            rd = p.startswith("reader:") or p.startswith("freader:")
+            if rd and er is None:
+                continue
+            meta.append((er if rd else et, p))
+            cases.append("\t".join(["de.text", p, enc, shs, hx(txt)]))
+    impl, _ = ctx.correspond("size_hints", cases, nontrivial=lambda c, i: "(hint" in i, model=False)
+    base = len(impl) - len(cases)
+    for k, (exp, p) in enumerate(meta):
+        o = impl[base + k]
+        if o != exp:
+            ctx.fail("hint-" + p.split(":")[0], "%s path: %s, the remaining elements / entries of the document give %s" % (p, o[:200], exp[:200]), [cases[k]], [o], exp)
+    texts = sorted(set(hx(g[2]) for g in groups))
+    tape, _ = phase1(ctx, "hints_model", texts)
+    mcases = []
+    for (shs, enc, txt) in groups:
+        h = hx(txt)
+        if h in tape:
+            for p in ("slice", "etape"):
+                mcases.append("\t".join(["de.model.hints", p, enc, shs, h, tape[h]]))
+    ctx.correspond("hints_model", mcases, nontrivial=lambda c, i: "(hint" in i)
+
+
 def run(ctx):
     run_enum(ctx)
+    run_keys(ctx)
+    run_hints(ctx)
